@@ -207,7 +207,7 @@ func runGuard(c Case) (msg string) {
 
 var failCount int
 
-const maxFailuresPerProcess = 6
+const maxFailuresPerProcess = 40
 
 // cell runs n generated cases of one stratification cell.
 func cell(t *testing.T, prop, kind, cellName string, n int, draw func(*rapid.T) Case) {
